@@ -278,7 +278,7 @@ def _mentions_pushdown_test(term):
 
 @rule(
     "R03d",
-    ["C03", "C01"],
+    ["C03", "C01", "C19"],
     """PUSHDOWN MUST-CHECK: in every _simplify_up, a non-None return reached under isinstance(parent, Filter) must be
     dominated by a true _filter_passthrough_available(...) / is_filter_pushdown_available(...) test; every override
     of _filter_passthrough_available must reach is_filter_pushdown_available on every path that can return True;
